@@ -196,7 +196,7 @@ _fresh = [0]
 def gen_int_expr(r, depth, reads, inner=()):
     """an int-valued expression reading from `reads` (outer names) and `inner` (locally bound)"""
     pool = list(reads) + list(inner)
-    k = r.randrange(10) if depth > 0 else r.randrange(2)
+    k = r.randrange(12) if depth > 0 else r.randrange(2)
     if k == 0 and inner and r.random() < 0.25:
         # an outer name read at this one place only (inside a nested scope): nothing else in the block can make the
         # analysis fetch it from the context by accident
@@ -231,6 +231,12 @@ def gen_int_expr(r, depth, reads, inner=()):
     if k == 8:
         q = "q%d" % depth
         return "max({%s for %s in (0, 1)} | {%s})" % (sub(inner=list(inner) + [q]), q, sub())
+    if k == 9:
+        # displays and calls with unpacking: the names read AFTER a ** / * item count like any other
+        return r.choice(["sum({**{-1: 0}, %s: %s}.values())", "sum([*(), %s, *[%s]])", "max(*[0], %s, *(%s,), **{})", "len({*(), %s, %s})",
+                         "sum(dict({-1: 0}, **{'a': %s}, b=%s).values())"]) % (sub(), sub())
+    if k == 10:
+        return "sum({**{-1: 0}, **{-2: %s}, %s: 1, **{}}.keys())" % (sub(), sub())
     return "abs(%s)" % sub()
 
 
@@ -607,6 +613,9 @@ DIRECTED = [
     ("page-default-unhashable", '<%page args="z=[1, 2], y={\'a\': 1}, s={3}"/>${z}${y}${s}', {}, False, "[1, 2]{'a': 1}{3}", None),
     ("page-default-unhashable-given", '<%page args="z=[1, 2]"/>${z}', {"z": [9]}, False, "[9]", None),
     ("def-default-unhashable", '<%def name="f(a=[1, {2: 3}], *b, c={4}, **d)">${a}${c}</%def>${f()}', {}, False, "[1, {2: 3}]{4}", None),
+    ("dict-key-after-splat", "${{**base, key: val}}", {"base": {}, "key": "k", "val": 1}, True, "{'k': 1}", None),
+    ("dict-key-after-splat-block", "<% d = {**base, key: 1, **base, other: 2} %>${d}", {"base": {}, "key": "k", "other": "o"}, True, "{'k': 1, 'o': 2}", None),
+    ("dict-key-after-splat-fn", "<%\ndef g():\n    return {**base, kf: 1}\n%>${g()}", {"base": {}, "kf": "k"}, True, "{'k': 1}", None),
     ("default-kwsplat", '<%! D = {"sep": "-"} %><%def name="f(a=dict(**D))">${a}</%def>${f()}', {}, False, "{'sep': '-'}", None),
 ]
 
